@@ -352,6 +352,8 @@ pub fn run(cfg: &Cfg) -> i32 {
                     }));
                 }
             }
+            // (not part of the C20 recorder builds, which include this file without c02w)
+            #[cfg(feature = "mtbdd")]
             {
                 let cases = cfg.t(400, 6000);
                 let seed = mix(cfg.seed ^ (0xc02_300 + <$K>::NAME.len() as u64 * 31 + <$K>::NAME.as_bytes()[1] as u64));
